@@ -992,7 +992,7 @@ impl<const MIN_ALIGN: usize> Bump<MIN_ALIGN> {
             verif_hooks::on_store(cur_chunk.as_ptr() as usize);
 
             // Reset the allocated size of the chunk.
-            cur_chunk.as_mut().allocated_bytes = cur_chunk.as_ref().layout.size();
+            cur_chunk.as_mut().allocated_bytes = cur_chunk.as_ref().layout.size() - FOOTER_SIZE;
 
             debug_assert!(
                 self.current_chunk_footer
